@@ -248,3 +248,58 @@ func (h HostFn) Eval(env *lisp.LEnv, a *lisp.LVal) *lisp.LVal { return h.Fn(env,
 func Fn(name string, formals []string, fn func(env *lisp.LEnv, args *lisp.LVal) *lisp.LVal) lisp.LBuiltinDef {
 	return HostFn{N: name, F: lisp.Formals(formals...), Fn: fn}
 }
+
+// NormFuns rewrites every printed function value in s -- "(lambda ...)" with
+// balanced parentheses, or "#<builtin>" -- to "#<fun>".  Printing a closure
+// enumerates captured bindings, which is another property's subject.
+func NormFuns(s string) string {
+	var sb strings.Builder
+	i := 0
+	for i < len(s) {
+		switch {
+		case s[i] == '"':
+			j := i + 1
+			for j < len(s) && s[j] != '"' {
+				if s[j] == '\\' {
+					j++
+				}
+				j++
+			}
+			if j >= len(s) {
+				j = len(s) - 1
+			}
+			sb.WriteString(s[i : j+1])
+			i = j + 1
+		case strings.HasPrefix(s[i:], "(lambda "):
+			depth, j := 0, i
+			for j < len(s) {
+				if s[j] == '"' {
+					j++
+					for j < len(s) && s[j] != '"' {
+						if s[j] == '\\' {
+							j++
+						}
+						j++
+					}
+				} else if s[j] == '(' {
+					depth++
+				} else if s[j] == ')' {
+					depth--
+					if depth == 0 {
+						break
+					}
+				}
+				j++
+			}
+			sb.WriteString("#<fun>")
+			i = j + 1
+		case strings.HasPrefix(s[i:], "#<builtin>"):
+			sb.WriteString("#<fun>")
+			i += len("#<builtin>")
+		default:
+			sb.WriteByte(s[i])
+			i++
+		}
+	}
+	return sb.String()
+}
